@@ -31,11 +31,22 @@ def plan (tier, seed):
     n = 260 if tier == 'quick' else 5000
     corpus = sorted (glob.glob (os.path.join (common.REPO, 'test', '*.mini')))
     return [dict (kind = 'corpus', file = os.path.basename (f)) for f in corpus] + [dict (kind = 'model', i = i, seed = seed) for i in range (n)] \
-         + [dict (c, kind = 'model') for c in pymcorpus.plan_cases (seed, tier, 1, 3)]
+         + [dict (c, kind = 'model') for c in pymcorpus.plan_cases (seed, tier, 1, 3)] + [dict (kind = 'model', edge = k, i = k, seed = seed) for k in range (len (EDGE_H))]
 # end def plan
+
+EDGE_H = [(seg, n, fac) for seg, n in ((1.0, 10), (2.0, 5), (0.25, 8), (4.0, 3)) for fac in (1.0, 0.5, 0.999, 1.001, 2.0, -0.5)]
 
 def make (c):
     rng = np.random.default_rng ([c ['seed'], 18, c ['i']])
+    if 'edge' in c:
+        # a vertical wire whose lower end is at, just inside or just outside the distance (1/1000 of the segment length)
+        # up to which the program takes an end as lying on the ground plane
+        seg, n, fac = EDGE_H [c ['edge'] % len (EDGE_H)]
+        z = seg * 1e-3 * fac
+        spec = dict ( f = float (299.8 / (seg * n * 4.2)), geo = [gen.wire (n, [0, 0, z], [0, 0, z + seg * n], seg / 100.0)], fam = 'edge-height'
+                    , media = [[0, 0, 0]] if c ['edge'] % 2 == 0 else [[13.0, 0.005, 0.0]], src = [dict (p = [1 + c ['edge'] % 2], v = [1.0, 0.0])], loads = []
+                    , lclass = 'none', version = ['9', '12', '13'] [c ['edge'] % 3], fields = 'none')
+        return spec
     if 'corpus' in c:
         # the repository's hand-made option files written as BASIC input
         spec = pymcorpus.make (c, 18)
@@ -170,6 +181,13 @@ def make (c):
                     a_ = np.polynomial.polynomial.polymul (a_, ta)
                 n_ = max (len (a_), len (b_))
                 loads.append (dict (k = 'lap', a = [float (x) for x in a_] + [0.0] * (n_ - len (a_)), b = [float (x) for x in b_] + [0.0] * (n_ - len (b_)), att = att))
+    # elements of value zero are elements (a load table entry of 0 + 0j, insulation with the permittivity of air)
+    rz = np.random.default_rng ([c ['seed'], 182, c ['i']])
+    for l in loads:
+        if l ['k'] == 'z' and rz.random () < 0.15:
+            l ['z'] = [0.0, 0.0]
+        elif l ['k'] == 'ins' and rz.random () < 0.15:
+            l ['eps'] = 1.0
     # the same load attached more than once to a pulse counts as often
     for l in loads:
         if 'att' in l and rng.random () < 0.25:
